@@ -65,6 +65,8 @@ class FnContract:
     closure_modifies: tuple = ()           # closure variables the function may rebind (`nonlocal`): havocked at calls
     decreases: Optional[Callable] = None   # decreases(ctx) -> Int term: measure; every recursive call must lower it
     total: bool = False                    # emit the `raises` obligation even when no exceptional path exists
+    frame: Optional[Callable] = None       # frame(ex, st, amap): field-granular havoc at call sites instead of the
+                                           # default whole-object havoc of `modifies` (pack C18: cached token / site id)
 
 
 class Registry:
